@@ -94,6 +94,18 @@ def run(ctx):
                     ok = not (kind == 0 and f == "chainId" and v > LEGACY_CHAIN_MAX)
                     docs.append(render(base_doc(kind), f, tok))
                     meta.append((kind, f, tok, ("exact", v) if ok else ("reject",), how))
+            # the last digit decides: floor(2^256 / radix) * radix + d fits for small d and overflows for large d
+            for radix, pre, fmtd in ((10, "", "%d"), (16, "0x", "%x"), (8, "0o", "%o"), (2, "0b", "%s")):
+                base = (U256 // radix) * radix
+                for d in range(radix if radix <= 10 else 16):
+                    v = base + d
+                    digits = bin(v)[2:] if radix == 2 else fmtd % v
+                    ok = v < U256 and not (kind == 0 and f == "chainId" and v > LEGACY_CHAIN_MAX)
+                    zone = ("exact", v) if ok else ("reject",)
+                    if radix in (2, 8) and ok:
+                        zone = ("may", v)
+                    docs.append(render(base_doc(kind), f, '"%s%s"' % (pre, digits)))
+                    meta.append((kind, f, '"%s%s"' % (pre, digits), zone, "last-digit-overflow/radix%d" % radix))
             for tok in MALFORMED:
                 if tok == "null" and kind == 0 and f == "chainId":
                     continue  # an absent/null legacy chain id simply means "no chain id" (C11 covers the guard)
